@@ -28,13 +28,13 @@ def _run(tier):
     if c.quick():
         maxlen, groups, big = 6, [[b] for b in xb.CLASSES], False
     else:
-        maxlen, groups, big = 7, [[b] for b in xb.CLASSES], True
+        maxlen, groups, big = 8, [[b] for b in xb.CLASSES], True
     emits = parallel(xb.dec_runs(c, maxlen, groups, big), max_workers=7)
     for e in emits:
         c.replay(xb.COMP, e, extra={"prop": "C16"})
     c.exhaustive = True
 
-    ntr = 100 if c.quick() else 1000
+    ntr = 100 if c.quick() else 5000
     steps = 50 if c.quick() else 80
     trace = c.path("trace", "xbinary-c16.ndjson")
     c.run_vh(["drive", xb.COMP, "-seed", c.seed, "-n", ntr, "-out", trace, "-x", "mode=c16", "-x", "steps=%d" % steps])
